@@ -255,6 +255,49 @@ fn params_flat(p: &verif::Params, out: &mut Vec<f32>) {
     }
 }
 
+/// One plain SGD step written out by hand (documented rule: `g += decay * w; w -= lr * g`, element-wise), for networks
+/// of dense / convolution / deconvolution / max-pool layers without feedback blocks.  `wg` / `bg` are in the order
+/// `verif_backward` returns them (last layer first).  Used where the reference descent must not go through
+/// `Optimizer::update`.
+pub fn manual_sgd_step(net: &mut Network, wg: &[Tensor], bg: &[Option<Tensor>], lr: f32, decay: Option<f32>) {
+    let n = net.layers.len();
+    let step = |w: &mut f32, g: f32| {
+        let mut g = g;
+        if let Some(d) = decay {
+            g += d * *w;
+        }
+        *w -= lr * g;
+    };
+    for (i, layer) in net.layers.iter_mut().enumerate() {
+        if matches!(layer, Layer::Maxpool(_)) {
+            continue;
+        }
+        assert!(!matches!(layer, Layer::Feedback(_)), "harness: manual SGD does not handle feedback blocks");
+        let mut p = verif::layer_params(layer);
+        let g = crate::util::flat(&wg[n - 1 - i]);
+        let mut it = g.iter();
+        if let Some(w) = p.weights.as_mut() {
+            for x in w.iter_mut().flatten() {
+                step(x, *it.next().expect("weight gradient too short"));
+            }
+        }
+        if let Some(k) = p.kernels.as_mut() {
+            for x in k.iter_mut().flatten().flatten().flatten() {
+                step(x, *it.next().expect("kernel gradient too short"));
+            }
+        }
+        assert!(it.next().is_none(), "harness: weight gradient longer than the parameters");
+        if let Some(b) = p.bias.as_mut() {
+            let gb = crate::util::flat(bg[n - 1 - i].as_ref().expect("bias gradient missing"));
+            assert_eq!(gb.len(), b.len());
+            for (x, g) in b.iter_mut().zip(gb.iter()) {
+                step(x, *g);
+            }
+        }
+        verif::set_layer(layer, p);
+    }
+}
+
 /// All parameters, one flat vector per (unrolled) layer, in order.
 pub fn all_params(net: &Network) -> Vec<Vec<f32>> {
     let mut out = Vec::new();
